@@ -47,6 +47,9 @@ pub struct Query {
     pub vec: Vec<f32>,
     pub k: usize,
     pub ef: usize,
+    /// `search_filtered` with the visibility predicate "row is live" instead of `search`
+    #[serde(default)]
+    pub filtered: bool,
 }
 
 #[derive(Serialize, Deserialize, Clone, Debug, PartialEq)]
